@@ -22,7 +22,7 @@ ASSUMPTIONS = ['the harness influence-set functions cover every node whose rate 
 BUDGET = {'quick': 160, 'thorough': 1500}
 CHUNK = {'quick': 10, 'thorough': 40}
 CASE_TIMEOUT = 300
-REQUIRED = ['null_events_seen', 'steps_law_checked', 'clock_draws_checked', 'selections_checked', 'thresholds_checked', 'chooser_calls_checked', 'terminations_checked', 'one_shot_influence_iterables', 'falsy_status_label_runs',
+REQUIRED = ['runs_reporting_a_strict_subset_of_statuses', 'null_events_seen', 'steps_law_checked', 'clock_draws_checked', 'selections_checked', 'thresholds_checked', 'chooser_calls_checked', 'terminations_checked', 'one_shot_influence_iterables', 'falsy_status_label_runs',
             'counts_follow_statuses', 'e3_states_expanded', 'rate_zero_after_event_seen']
 
 
@@ -141,7 +141,7 @@ def gen_cases(tier, seed):
                     'IC': [r.choice([0, 0, 1]) for _ in range(desc['n'])], 'tmin': r.choice([0, -2, 1.5]),
                     'tmax': r.choice(['inf', 1.0, 3.0, 2]) if m in ('sir', 'threshold', 'watts', 'kofn', 'global', 'slow_sir') else r.choice([0.5, 1.5, 2]),     # span; tmin=-2 with span 2: horizon exactly 0
                     'full': r.random() < 0.5, 'seed': cs, 'infl_form': r.choice(['list', 'tuple', 'set', 'iterator', 'generator', 'dictkeys']),
-                    'label_map': r.choice(['str', 'int0', 'rev_int', 'bool', 'emptystr'])})
+                    'label_map': r.choice(['str', 'int0', 'rev_int', 'bool', 'emptystr']), 'return_subset': r.random() < 0.3})
     nmax = 4 if q else 5
     k = 0
     for desc in gen.atlas(nmax, 2):
@@ -233,8 +233,16 @@ def run_case(case):
     def chooser_plain(Gx, n, status):
         return chooser(Gx, n, status, None)
 
+    # return_statuses may be any selection (and order) of the model's statuses: counts are reported for those only
+    rs = list(sts)
+    if case.get('return_subset'):
+        rr = random.Random(case['seed'] + 23)
+        rs = rr.sample(sts, rr.randint(1, len(sts)))
+        if len(rs) < len(sts):
+            bump(res, 'runs_reporting_a_strict_subset_of_statuses')
+
     def call(full):
-        return EoN.Gillespie_complex_contagion(G, rate, rec_chooser, infl, IC, sts, tmin=tmin, tmax=tmax, parameters=('p',), return_full_data=full)
+        return EoN.Gillespie_complex_contagion(G, rate, rec_chooser, infl, IC, list(rs), tmin=tmin, tmax=tmax, parameters=('p',), return_full_data=full)
     if case['kind'] == 'e2':
         fails, counters = [], {}
         try:
@@ -253,7 +261,7 @@ def run_case(case):
         for pred, det in fails:
             viol(res, tag + '|' + pred, det)
         if not fails:
-            _check_output(G, nodes, IC, sts, out, events, case['full'], tmin, res, tag, rate_plain)
+            _check_output(G, nodes, IC, rs, out, events, case['full'], tmin, res, tag, rate_plain)
         if events:
             res['nontrivial'] = 'e2:%s:%s:%s' % (case['model'], gen.iso_key(case['graph']), case['params'])
             res['sample'] = {'kind': 'e2', 'model': case['model'], 'graph': case['graph'], 'events': len(events), 'params': case['params']}
